@@ -614,7 +614,19 @@ func convertInt(v Val, from, to types.Type) (Val, bool) {
 			b.Signed = st
 			return b, true
 		}
-		return v, true // same width: Sym/Affine keep meaning modulo 2^w
+		// same width, other signedness: the same bits, but no longer the same integer for half of the range — the value
+		// is materialised as a bit vector of the new signedness (a symbol keeps the signedness of the program value it
+		// stands for: see symShape), so that an ordering of the converted values is not mistaken for one of the originals
+		if sf != st {
+			switch v.(type) {
+			case Sym, Affine:
+				if b, ok := toBits(v, from); ok {
+					b.Signed = st
+					return b, true
+				}
+			}
+		}
+		return v, true // same width and signedness: Sym/Affine keep meaning modulo 2^w
 	}
 	b, ok := toBits(v, from)
 	if !ok {
